@@ -3,6 +3,7 @@ import CookModel.Lemmas.Text
 import CookModel.Lemmas.LexLaws
 import CookModel.Lemmas.Roundtrip
 import CookModel.Lemmas.RoundtripQty
+import CookModel.Lemmas.RoundtripComp
 /-
   C01  Printing a recipe as Cooklang and parsing it returns that recipe.
 
@@ -296,5 +297,70 @@ example : (parseQuantity (α := Rat) C01_twoHeaped
     ⟨[], 0, ⟨Gen.EXT_ADVANCED_UNITS⟩, toyCharSpec, #[], none⟩).1.quantity.val.unit.isSome = true := by decide
 example : (parseQuantity (α := Rat) C01_twoHeaped
     ⟨[], 0, ⟨0⟩, toyCharSpec, #[], none⟩).1.quantity.val.unit.isSome = false := by decide
+
+/-! ### the component layer: `spellIngredient` is read back by the ingredient parser -/
+
+/-- An ingredient spelled `@ modifiers name [| alias] { quantity } [(note)]` — multi-word name in
+    braces, optional alias (ALIAS), modifier characters in any order (MODIFIERS), optional
+    quantity of the quantity layer, optional note, blanks after the name, around the alias, in
+    the braces (`CPad`) — standing anywhere in a block (`A` before, `rest` after, `rest` not
+    starting with `(` unless a note was written), is parsed by `ingredient()` to
+    `some (ingredient …)` whose name / alias / note texts trim to the intended strings, whose
+    modifier flags are exactly the written ones, without intermediate reference, with the quantity
+    as in `C01_quantity_roundtrip`; its span runs from the offset before `@` to the end of the
+    last token of the spelling; the cursor is left exactly after the component; the final state
+    differs from the initial one in the cursor only: NO diagnostic is pushed, no panic.
+    `AComp.wf` (decidable) lists the side conditions; they are necessary (examples below). -/
+theorem C01_component_roundtrip {α : Type} [Arith α] (c : AComp) (p : CPad) (s : BP α)
+    (hwf : c.wf s.cs s.ext = true) (hp : p.ok s.cs = true)
+    (A ts rest : List Tok) (hs : Spells ts (spellIngredient c p)) (ht : s.toks = A ++ (ts ++ rest))
+    (hc : s.cur = A.length) (hrest : restOK c rest = true) (hrun : RunAt (baseOff s.toks) s.toks) :
+    ∃ ing : PIngredient α,
+      ingredientP s = (some (.ingredient ⟨ing, ⟨offAt s.toks A.length, offAt s.toks (A.length + ts.length)⟩⟩),
+        { s with cur := A.length + ts.length }) ∧ IngrMatches s.cs c ing :=
+  rt_ingredientP c p s hwf hp A ts rest hs ht hc hrest hrun
+
+/-! examples: `@-?olive oil |EVOO {= 1 1 / 2 % fl oz }(cold pressed)` satisfies the side
+    conditions under the full extension set; each clause of `AComp.wf` is needed -/
+def C01_allExt : Ext := ⟨Gen.EXT_COMPONENT_MODIFIERS ||| Gen.EXT_COMPONENT_ALIAS ||| Gen.EXT_ADVANCED_UNITS |||
+  Gen.EXT_RANGE_VALUES ||| Gen.EXT_INTERMEDIATE_PREPARATIONS⟩
+def C01_exComp : AComp :=
+  { mods := [.minus, .question],
+    name := [tk .word "olive".toList, tk .ws [' '], tk .word "oil".toList],
+    alias := some [tk .word "EVOO".toList],
+    qty := some C01_exQty,
+    note := some [tk .word "cold".toList, tk .ws [' '], tk .word "pressed".toList] }
+def C01_exCPad : CPad := { n1 := [tk .ws [' ']], a1 := [tk .ws [' ']], q := C01_exQPad }
+
+example : C01_exComp.wf toyCharSpec C01_allExt = true ∧ C01_exCPad.ok toyCharSpec = true := by decide
+example : modsOf [.minus, .question] = ⟨Modifiers.HIDDEN ||| Modifiers.OPT⟩ := by decide
+/-- realistic names of the harness pool pass: `1st press oil` (a digit glued to a word), `sea salt` -/
+example : ({ name := [tk .int ['1'], tk .word "st".toList, tk .ws [' '], tk .word "press".toList, tk .ws [' '],
+    tk .word "oil".toList] } : AComp).wf toyCharSpec ⟨0⟩ = true := by decide
+/-- necessary clauses, each with the input on which the parser gives something else:
+    a name starting with a modifier character under MODIFIERS (`@?x{}` is `x`, optional) … -/
+example : ({ name := [tk .question ['?'], tk .word ['x']] } : AComp).wf toyCharSpec C01_allExt = false := by decide
+example : ({ name := [tk .question ['?'], tk .word ['x']] } : AComp).wf toyCharSpec ⟨0⟩ = true := by decide
+def C01_qx : List Tok := [⟨.at, ['@'], 0⟩, ⟨.question, ['?'], 1⟩, ⟨.word, ['x'], 2⟩, ⟨.openBrace, ['{'], 3⟩, ⟨.closeBrace, ['}'], 4⟩]
+example : (match (ingredientP (α := Rat) ⟨C01_qx, 0, C01_allExt, toyCharSpec, #[], none⟩).1 with
+    | some (.ingredient i) => i.val.name.text == ['x'] && i.val.modifiers.val.contains Modifiers.OPT
+    | _ => false) = true := by decide
+/-- … a `|` in the name under ALIAS (`@a|b{}` is `a` with alias `b`) … -/
+example : ({ name := [tk .word ['a'], tk .or ['|'], tk .word ['b']] } : AComp).wf toyCharSpec C01_allExt = false := by decide
+def C01_ab : List Tok := [⟨.at, ['@'], 0⟩, ⟨.word, ['a'], 1⟩, ⟨.or, ['|'], 2⟩, ⟨.word, ['b'], 3⟩, ⟨.openBrace, ['{'], 4⟩, ⟨.closeBrace, ['}'], 5⟩]
+example : (match (ingredientP (α := Rat) ⟨C01_ab, 0, C01_allExt, toyCharSpec, #[], none⟩).1 with
+    | some (.ingredient i) => i.val.name.text == ['a'] && i.val.alias.isSome
+    | _ => false) = true := by decide
+/-- … a modifier written without MODIFIERS (it is part of the name), a modifier written twice
+    (an error is pushed), an alias without ALIAS, `{`/`(`/`)` in a name or note … -/
+example : ({ mods := [.question], name := [tk .word ['x']] } : AComp).wf toyCharSpec ⟨0⟩ = false := by decide
+example : ({ mods := [.question, .question], name := [tk .word ['x']] } : AComp).wf toyCharSpec C01_allExt = false := by decide
+example : ({ name := [tk .word ['x']], alias := some [tk .word ['y']] } : AComp).wf toyCharSpec ⟨0⟩ = false := by decide
+example : ({ name := [tk .word ['x'], tk .openBrace ['{']] } : AComp).wf toyCharSpec ⟨0⟩ = false := by decide
+example : ({ name := [tk .word ['x']], note := some [tk .word ['a'], tk .closeParen [')'], tk .word ['b']] } : AComp).wf
+    toyCharSpec ⟨0⟩ = false := by decide
+/-- … and what follows: without a note a `(`…`)` directly after `}` would be taken as the note -/
+example : restOK { name := [tk .word ['x']] } [tk .openParen ['(']] = false := by decide
+example : restOK { name := [tk .word ['x']] } [tk .ws [' '], tk .openParen ['(']] = true := by decide
 
 end Cook
